@@ -1,1 +1,100 @@
-(* placeholder *)
+(* C16 — translation of SkinnedMesh joints between the entity-id spaces of two peers
+   (src/lib_priv.rs: to_skinned_mapper / to_skinned_mesh; model: Sync/Model.v). *)
+From stdpp Require Import gmap list.
+From Coq Require Import NArith Lia.
+From RecordUpdate Require Import RecordSet.
+From BS Require Import Sync.Types Sync.Model.
+Import RecordSetNotations.
+Local Open Scope N_scope.
+
+(* omap over a list whose elements are all mapped is a plain map *)
+Lemma omap_all_some {A B} (f : A -> option B) (g : A -> B) (l : list A) :
+  Forall (fun x => f x = Some (g x)) l -> omap f l = g <$> l.
+Proof.
+  induction 1 as [|x l Hx _ IH]; [reflexivity|].
+  change (omap f (x :: l)) with (match f x with Some y => y :: omap f l | None => omap f l end).
+  rewrite Hx, IH. reflexivity.
+Qed.
+
+Lemma omap_length_le {A B} (f : A -> option B) (l : list A) : (length (omap f l) <= length l)%nat.
+Proof.
+  induction l as [|x l IH]; [reflexivity|].
+  change (omap f (x :: l)) with (match f x with Some y => y :: omap f l | None => omap f l end).
+  destruct (f x); simpl; lia.
+Qed.
+
+(* Sender A maps local joints to uuids with its e2u, receiver B maps uuids to ITS local entities
+   with its u2e. If every joint is a synchronised entity on A (e2u_A j = Some (u j)) and every
+   such uuid has a replica on B (u2e_B (u j) = Some (rep j)), then the SkinnedMesh arrives with
+   the same number of joints, in the same order (repeats included), each joint being B's
+   replica of the same uuid, and with equal inverse bind poses — whatever the two local
+   entity-id spaces are. *)
+Theorem skin_roundtrip (A B : peer_state) (joints : list ent) (poses : list N)
+    (u : ent -> uuid) (rep : ent -> ent) :
+  Forall (fun j => t_e2u A !! j = Some (u j)) joints ->
+  Forall (fun j => t_u2e B !! (u j) = Some (rep j)) joints ->
+  to_skinned_mapper A joints poses = VMapper (u <$> joints) poses /\
+  to_skinned_mesh B (u <$> joints) poses = VSkin (rep <$> joints) poses.
+Proof.
+  intros HA HB. unfold to_skinned_mapper, to_skinned_mesh. split.
+  - f_equal. apply omap_all_some. exact HA.
+  - f_equal. induction joints as [|j js IH]; [reflexivity|].
+    inversion HA as [|? ? HA1 HA2]; inversion HB as [|? ? HB1 HB2]; subst.
+    change (omap (fun x => t_u2e B !! x) (u <$> (j :: js)))
+      with (match t_u2e B !! u j with
+            | Some y => y :: omap (fun x => t_u2e B !! x) (u <$> js)
+            | None => omap (fun x => t_u2e B !! x) (u <$> js) end).
+    rewrite HB1. change (rep <$> j :: js) with (rep j :: (rep <$> js)). f_equal. apply IH; assumption.
+Qed.
+
+(* counts: same number of joints, and never more joints than were sent *)
+Corollary skin_same_length A B joints poses u rep :
+  Forall (fun j => t_e2u A !! j = Some (u j)) joints ->
+  Forall (fun j => t_u2e B !! (u j) = Some (rep j)) joints ->
+  exists js', to_skinned_mesh B (u <$> joints) poses = VSkin js' poses /\ length js' = length joints.
+Proof.
+  intros HA HB. destruct (skin_roundtrip A B joints poses u rep HA HB) as [_ H].
+  exists (rep <$> joints). split; [exact H|]. apply fmap_length.
+Qed.
+
+(* What the code does when a joint is NOT a synchronised entity on the sender, or has no
+   replica on the receiver: it is silently dropped (filter_map) — the joint count shrinks.
+   The property's hypothesis "whose joints are synchronized entities" is exactly what excludes it. *)
+Theorem skin_unknown_joint_dropped A joints poses :
+  match to_skinned_mapper A joints poses with
+  | VMapper us _ => (length us <= length joints)%nat
+  | _ => False
+  end.
+Proof. unfold to_skinned_mapper. apply omap_length_le. Qed.
+
+Example skin_drop_example :
+  let A := init_peer 1 [] [] [] <| t_e2u := {[ 5 := 50 ]} |> in
+  to_skinned_mapper A [5; 6; 5] [7] = VMapper [50; 50] [7].
+Proof. vm_compute. reflexivity. Qed.
+
+(* delivery: applying a received mapper to an entity installs exactly the translated mesh *)
+Theorem skin_apply (pr : peer_state) (e : ent) (en : entity) (u : uuid) (us : list uuid) (ps : list N) :
+  memN T_MAPPER (p_registry pr) = true -> memN T_SKIN (p_registry pr) = true ->
+  p_ents pr !! e = Some en -> en_sync en = Some u ->
+  let '(pr', changed) := apply_component_change pr e T_MAPPER (VMapper us ps) in
+  changed = true /\
+  exists en', p_ents pr' !! e = Some en' /\
+              (c_val <$> (en_comps en' !! T_SKIN)) = Some (to_skinned_mesh pr us ps).
+Proof.
+  intros Hm Hs He Hu. unfold apply_component_change, wire_type.
+  rewrite Hm. cbn [negb]. rewrite Hs. cbn [negb]. rewrite He, Hu.
+  assert (Hd : match en_comps en !! T_SKIN with
+               | Some c => negb (value_eqb (c_val c) (to_skinned_mesh pr us ps))
+               | None => true end = true).
+  { destruct (en_comps en !! T_SKIN) as [c|]; [|reflexivity].
+    unfold to_skinned_mesh. destruct (c_val c); reflexivity. }
+  rewrite Hd. split; [reflexivity|].
+  unfold upd_ent. cbn. rewrite He. cbn.
+  eexists. rewrite lookup_insert. split; [reflexivity|].
+  unfold put_comp. destruct (en_comps en !! T_SKIN); cbn; rewrite lookup_insert; reflexivity.
+Qed.
+
+Print Assumptions skin_roundtrip.
+Print Assumptions skin_same_length.
+Print Assumptions skin_unknown_joint_dropped.
+Print Assumptions skin_apply.
